@@ -147,9 +147,60 @@ func ZZH_C07_DocumentsShareNoMemory() {
 	// what a document saved earlier stays what it was when another document is saved
 	dataA, err := a.ToBytes()
 	zzvAssert(err == nil, "ToBytes succeeds")
-	snap := zzvDeepCopy(dataA)
+	before, ok := zzhReadZipBytes(dataA)
+	zzvAssert(ok, "the serialised bytes are a readable archive")
 	_, err = b.ToBytes()
 	zzvAssert(err == nil, "ToBytes succeeds")
-	zzvAssert(zzvSameShape(snap, dataA), "two documents: bytes obtained for one document do not change when another document is serialised")
+	// the slice obtained for A is A's archive still (it must not alias memory that serialising
+	// another document reuses)
+	after, ok := zzhReadZipBytes(dataA)
+	zzvAssert(ok && zzhSameParts(before, after), "two documents: bytes obtained for one document do not change when another document is serialised")
 	zzvReach("disjoint")
+}
+
+// Documents rendered from one document template are documents of their own: two renderings share
+// no mutable memory with each other or with the template's base document, and editing one of them
+// (a further header/footer call, a paragraph, an image) leaves the base document and the other
+// rendering exactly as they were. The base document holds headers/footers of solver-chosen kinds
+// (so a rendering may redefine a kind the template already has), page settings and a table.
+func ZZH_C07_RenderedDocumentsAreIndependent() {
+	zzhPkgReset()
+	base := New()
+	base.AddParagraph(zzvString())
+	kinds := [...]HeaderFooterType{HeaderFooterTypeDefault, HeaderFooterTypeFirst, HeaderFooterTypeEven}
+	hk, fk := kinds[zzvChoice(3)], kinds[zzvChoice(3)]
+	zzvAssume(base.AddHeader(hk, zzvString()) == nil)
+	if zzvBool() {
+		zzvAssume(base.AddFooter(fk, zzvString()) == nil)
+	}
+	zzvAssume(base.SetPageMargins(20, 20, 20, 20) == nil)
+	_, err := base.AddTable(&TableConfig{Rows: 1, Cols: 2, Width: 3000})
+	zzvAssume(err == nil)
+	// the clone stage every rendering of a document template starts from (the substitution
+	// passes that follow work on the clone only; their regexp passes over header parts are not
+	// encoded)
+	te := NewTemplateEngine()
+	r1 := te.cloneDocument(base)
+	r2 := te.cloneDocument(base)
+	zzvAssert(r1 != nil && r2 != nil, "rendered documents: cloning the base document succeeds")
+	if r1 == nil || r2 == nil {
+		return
+	}
+	zzvAssertDisjoint(interface{}(r1), interface{}(r2), "two renderings")
+	zzvAssertDisjoint(interface{}(r1), interface{}(base), "rendering and base document")
+	snapBase, snap2 := zzvDeepCopy(base), zzvDeepCopy(r2)
+	switch zzvChoice(4) {
+	case 0:
+		zzvAssume(r1.AddHeader(kinds[zzvChoice(3)], zzvString()) == nil)
+	case 1:
+		zzvAssume(r1.AddFooter(kinds[zzvChoice(3)], zzvString()) == nil)
+	case 2:
+		r1.AddParagraph(zzvString())
+	case 3:
+		_, err := r1.AddImageFromData(zzhPNG, "p.png", ImageFormatPNG, 3, 2, nil)
+		zzvAssume(err == nil)
+	}
+	zzvAssert(zzvSameShape(snapBase, base), "rendered documents: editing a rendering leaves the template's base document as it was")
+	zzvAssert(zzvSameShape(snap2, r2), "rendered documents: editing a rendering leaves the other rendering as it was")
+	zzvReach("renderings independent")
 }
